@@ -154,7 +154,7 @@ func runJob(bin, tier string, j *job, tmp string) {
 	defer cancel()
 	cmd := exec.CommandContext(ctx, bin, "run", "-harness", j.h.Name, "-variant", j.v.Name, "-tier", tier,
 		"-shard", fmt.Sprintf("%d/%d", j.k, j.w), "-budget", strconv.Itoa(budget), "-out", outFile)
-	cmd.Env = append(env(), "GOMAXPROCS=2", "GOMEMLIMIT=3GiB")
+	cmd.Env = append(env(), "GOMAXPROCS=2", "GOMEMLIMIT=3GiB", "GOGC=400")
 	var errb bytes.Buffer
 	cmd.Stderr = &errb
 	cmd.Stdout = &errb
